@@ -89,7 +89,7 @@ type OCache interface {
 	// Pick returns value if it's presents in cache (will not call loadFunc)
 	Pick(ctx context.Context, id string) (value Object, err error)
 	// Add adds new object to cache
-	// Returns error when object exists
+	// Returns error when object exists or the cache is closed
 	Add(id string, value Object) (err error)
 	// Remove closes and removes object
 	Remove(ctx context.Context, id string) (ok bool, err error)
@@ -381,6 +381,9 @@ func (c *oCache) Add(id string, value Object) (err error) {
 	verifGate("gate:add.lock", id)
 	c.mu.Lock()
 	defer c.mu.Unlock()
+	if c.closed {
+		return ErrClosed
+	}
 	if _, ok := c.data[id]; ok {
 		verifGate("add.exists", id)
 		return ErrExists
